@@ -433,10 +433,9 @@ func (x *Exec) applyContract(fr *Frame, st *State, spec *FuncSpec, key string, n
 			o := &Obligation{Name: fmt.Sprintf("%s/%scall:%s@%d/pre:%s", x.topKey, fr.prefix, key, occ, c.Label), Kind: "call-pre",
 				Guard: st.Reach, Prop: p, AltProp: alt, Pos: x.pos(pos), Src: c.Src, FnName: x.topKey, Inputs: x.inputs}
 			o.Props = append(o.Props, c.Props...)
-			for _, dp := range x.defProps {
-				if !contains(o.Props, dp) {
-					o.Props = append(o.Props, dp)
-				}
+			if len(c.Props) == 0 {
+				// an untagged precondition serves whatever the calling function serves
+				o.Props = append(o.Props, x.defProps...)
 			}
 			if x.inC11 && contains(c.Props, "C11") && !contains(o.Props, "C11") {
 				o.Props = append(o.Props, "C11")
